@@ -271,8 +271,15 @@ def install(names=None):
             non.sort()
             missing = _msdiff(non0, non)
             extra = _msdiff(non, non0)
+            psum = set()
+            acc = 0
+            for c in caps:
+                acc += c
+                psum.add(acc)
             rec("C08", "split", "events", not missing and not extra,
-                {"duration": d0, "caps": caps[:8], "missing": missing[:4], "extra": extra[:4]})
+                {"duration": d0, "caps": caps[:8], "missing": missing[:4], "extra": extra[:4],
+                 "final_tick_is_boundary": d0 in psum, "n_missing": len(missing),
+                 "n_missing_on_final_tick": sum(1 for m in missing if m[0] == d0)})
             timed, d = view_rel(self)
             rec("C08", "split", "source_unchanged", events(timed) == ev0 and d == d0, None)
             ids = set(id(m) for m in self._messages)
@@ -568,12 +575,16 @@ def install(names=None):
                 rec("C14", "transpose", "exact_shift", got == exp and not pr, (k, _msdiff(exp, got)[:3], _msdiff(got, exp)[:3]))
                 rec("C14", "transpose", "duration_kept", dur == pre["dur"], (dur, pre["dur"]))
             keys = [(t, m.key) for t, m in timed if mtype(m) == KS]
-            okk = len(keys) == len(pre["keys"]) and all(
-                t0 == t1 and key_ok(k0, k1, k) for (t0, k0), (t1, k1) in zip(sorted(pre["keys"], key=lambda x: x[0]),
-                                                                              sorted(keys, key=lambda x: x[0])))
-            if pre["keys"]:
-                rec("C14", "transpose", "key_events", okk, (k, [(t, orc.keyval(x)) for t, x in pre["keys"]][:3],
-                                                           [(t, orc.keyval(x)) for t, x in keys][:3]))
+            if pre["keys"] and not all(isinstance(x, Key) for t, x in pre["keys"]):
+                vac("transpose", "key_events")
+            elif pre["keys"]:
+                # compare the key in force at every tick (normalise may legitimately drop a repeated signature);
+                # a key that became undefined (None / not a Key) never matches
+                exp_fn = orc.step_fn([(t, (TONIC[orc.keyval(x)] + k) % 12) for t, x in pre["keys"]], "none", 10 ** 9)
+                got_fn = orc.step_fn([(t, TONIC[x.value] if isinstance(x, Key) else "undefined") for t, x in keys], "none", 10 ** 9)
+                rec("C14", "transpose", "key_events", exp_fn == got_fn,
+                    (k, [(t, orc.keyval(x)) for t, x in pre["keys"]][:3],
+                     [(t, x.value if isinstance(x, Key) else None) for t, x in keys][:3]))
             if not need:
                 non = [e for e in orc.nonnote_events(timed) if e[1] != KS]
                 rec("C14", "transpose", "other_events_kept", non == pre["non"], None)
